@@ -721,8 +721,27 @@ func (m *mapOrder) Classify(fn *ssa.Function, rng *ssa.Range) mapRangeVerdict {
 			case *ssa.Lookup:
 				mv = x.X
 			case *ssa.Call:
-				if bi, ok := x.Call.Value.(*ssa.Builtin); ok && bi.Name() == "len" {
-					mv = x.Call.Args[0]
+				if bi, ok := x.Call.Value.(*ssa.Builtin); ok {
+					if bi.Name() == "len" {
+						mv = x.Call.Args[0]
+					}
+					break
+				}
+				// a callee that is handed a map or an object the loop accumulates into may read it:
+				// its result would then depend on how far the loop has got
+				for _, a := range callArgs(&x.Call) {
+					if mapsUpdated[Path(a)] || mapsDeleted[Path(a)] {
+						return bad(x.Pos(), "map %s is written by the loop and also passed to %s", Path(a), calleeName(&x.Call))
+					}
+					ar, _, _ := addrRoot(a)
+					for l := range locStores {
+						if _, isLocal := l.root.(*ssa.Alloc); isLocal && a != l.root {
+							continue
+						}
+						if ar == l.root {
+							return bad(x.Pos(), "%s is accumulated into by the loop and also passed to %s, which may read the partial value", Path(l.root), calleeName(&x.Call))
+						}
+					}
 				}
 			case *ssa.Range:
 				if x != rng {
